@@ -169,7 +169,11 @@ func (s *Session) CheckCrash(c *fw.Ctx, where string) bool {
 		}
 		if nd.Hang {
 			bad = true
-			c.Violate("hang", "%s: call into party %q did not return within the watchdog bound", where, id)
+			if nd.H == nil {
+				c.Violate("hang@constructor", "%s: constructing the handler of party %q did not return within the watchdog bound (%d parties in the session)", where, id, len(s.Order))
+			} else {
+				c.Violate("hang", "%s: call into party %q did not return within the watchdog bound", where, id)
+			}
 		}
 	}
 	return bad
